@@ -141,7 +141,34 @@ func Deadline(n int) time.Duration {
 }
 
 // Exec runs one case. It never panics; infrastructure problems are outcome infra.
+// Exec runs one case. A missed deadline is only reported after the same case missed a five times longer one in a
+// fresh worker as well (a loaded machine can stall a worker for seconds; a time budget hit alone is never a
+// verdict). Pools with their own confirmation rule (KnownHangSite, C01) are left alone.
 func (p *Pool) Exec(req *Req) Rep {
+	rep := p.exec1(req)
+	if rep.Outcome != Hang || p.KnownHangSite != nil || req.NoHangConfirm {
+		return rep
+	}
+	dl := time.Duration(req.DeadlineMs) * time.Millisecond
+	if dl <= 0 {
+		dl = Deadline(len(req.Src))
+	}
+	if dl >= 30*time.Second {
+		return rep // already given half a minute or more
+	}
+	r2 := *req
+	r2.DeadlineMs = int(5 * dl / time.Millisecond)
+	if r2.DeadlineMs < 15000 {
+		r2.DeadlineMs = 15000
+	}
+	rep2 := p.exec1(&r2)
+	if rep2.Outcome == Hang {
+		rep2.Msg = "twice, also with " + fmt.Sprint(time.Duration(r2.DeadlineMs)*time.Millisecond) + ": " + rep2.Msg
+	}
+	return rep2
+}
+
+func (p *Pool) exec1(req *Req) Rep {
 	if p.w == nil {
 		if err := p.start(); err != nil {
 			return Rep{Outcome: Infra, Msg: "start worker: " + err.Error()}
